@@ -47,4 +47,4 @@ def run(ctx):
     echcommon.echconn_slice(ctx, lambda c: any(c["hist"][i] == ["w", "HRR"] and c["hist"][i + 1][0] == "r" for i in range(len(c["hist"]) - 1)), label="hrr flights")
     # ... and the connection handed back by NewConn is free of its context (EchWatch.tla scenarios, a few runs each)
     import c10
-    c10.run_watch(ctx, 2, 64, label="c01w")
+    c10.run_watch(ctx, 8 if ctx.quick else 60, 64, label="c01w")
